@@ -147,4 +147,111 @@ theorem rollUp_conserves_text (r : Reader) :
 theorem addChars_appends_text (c : Creator) (t : Tracker) (chars : Str) :
     itext (addChars c t chars).1.coll = itext c.coll ++ chars := itext_addChars c t chars
 
+/-! ### word by word -/
+
+/-- visible text a roll-up / paint-on reader holds: what is stored already, then what is in the active buffer -/
+def heldText (r : Reader) : Str := vis (capsText r.S.stash) ++ vis (itext r.buf.coll)
+
+/-- **C16 (one character word).** a word of two basic characters extends the held text by exactly these characters -/
+theorem word_basic_held (r : Reader) (w : String) (nxt : Option String) (a b : String) (h : BasicWord w a b) :
+    heldText (word r w nxt) = heldText r ++ vis (a.toList ++ b.toList) := by
+  obtain ⟨h1, h2, _⟩ := word_basic r w nxt a b h
+  unfold heldText
+  rw [h1, h2, vis_append, List.append_assoc]
+
+example : BasicWord "c1c2" "A" "B" := by
+  constructor <;> decide +kernel
+
+private theorem heldText_congr (r r' : Reader) (hS : r'.S = r.S) (hb : r'.buf = r.buf) : heldText r' = heldText r := by
+  unfold heldText; rw [hS, hb]
+
+private theorem heldText_frames (x : Reader) (n : Nat) : heldText { x with frames := n } = heldText x := by
+  unfold heldText
+  cases h : x.active <;> simp [Reader.buf, h]
+
+/-- **C16 (carriage return).** the roll-up carriage return (first copy) keeps the held text: the buffer's characters
+    move into the stash, nothing is lost or repeated -/
+theorem word_cr_held (r : Reader) (nxt : Option String) (hl : r.lastCmd ≠ "94ad") :
+    heldText (word r "94ad" nxt) = heldText r := by
+  have c1 : isCommand "94ad" = true := by decide +kernel
+  have c2 : isPac "94ad" = false := by decide +kernel
+  have c3 : isCueStarting "94ad" = false := by decide +kernel
+  have c4 : tabOffset "94ad" = none := by decide +kernel
+  have c5 : ("94ad" == r.lastCmd) = false := by
+    simp only [beq_eq_false_iff_ne, ne_eq]; exact fun e => hl e.symm
+  have hd : handleDouble r "94ad" = (false, { r with lastCmd := "94ad" }) := by
+    unfold handleDouble
+    simp [c1, c2, c3, c4, c5]
+  have hc : ∀ r' : Reader, command r' "94ad" nxt = if r'.buf.isEmpty then r' else rollUp r' := by
+    intro r'; unfold command; simp
+  have hw : word r "94ad" nxt =
+      { (if ({ r with lastCmd := "94ad" } : Reader).buf.isEmpty then ({ r with lastCmd := "94ad" } : Reader) else rollUp { r with lastCmd := "94ad" }) with
+        frames := (if ({ r with lastCmd := "94ad" } : Reader).buf.isEmpty then ({ r with lastCmd := "94ad" } : Reader) else rollUp { r with lastCmd := "94ad" }).frames + 1 } := by
+    unfold word
+    rw [hd]
+    simp only [Bool.false_eq_true, if_false, c1, Bool.true_or, if_true, hc]
+  rw [hw, heldText_frames]
+  have hb : ({ r with lastCmd := "94ad" } : Reader).buf = r.buf := by cases hh : r.active <;> simp [Reader.buf, hh]
+  by_cases he : r.buf.isEmpty = true
+  · rw [hb, if_pos he]
+    exact heldText_congr _ _ rfl hb
+  · rw [hb, if_neg he]
+    unfold heldText
+    rw [rollUp_conserves_text, hb]
+    have hB : (rollUp { r with lastCmd := "94ad" }).buf.coll = [] := by
+      unfold rollUp Reader.now
+      cases hh : r.active <;> (simp only [Reader.setBuf, hh]; split <;> simp [Reader.buf, hh])
+    rw [hB]
+    simp [itext, vis]
+
+/-- the second copy of a doubled carriage return is dropped: nothing changes -/
+theorem word_cr_repeated_held (r : Reader) (nxt : Option String) (hl : r.lastCmd = "94ad") :
+    heldText (word r "94ad" nxt) = heldText r := by
+  have c1 : isCommand "94ad" = true := by decide +kernel
+  have c3 : isCueStarting "94ad" = false := by decide +kernel
+  have hd : handleDouble r "94ad" = (true, { r with lastCmd := "" }) := by
+    unfold handleDouble
+    simp [c1, c3, hl]
+  unfold word
+  rw [hd]
+  simp only [if_true]
+  rw [heldText_frames]
+  exact heldText_congr _ _ rfl (by cases hh : r.active <;> simp [Reader.buf, hh])
+
+/-- a stream word of a roll-up row: two basic characters, or the carriage return -/
+inductive RollWord
+  | chars (w a b : String) (h : BasicWord w a b)
+  | cr
+
+def RollWord.code : RollWord → String
+  | .chars w _ _ _ => w
+  | .cr => "94ad"
+
+def RollWord.text : RollWord → Str
+  | .chars _ a b _ => a.toList ++ b.toList
+  | .cr => []
+
+/-- **C16 (a whole roll-up row sequence).** however many character words and carriage returns (single or doubled)
+    follow one another, from any reader state: the visible text held by the reader — stored captions, then the
+    buffer — grows by exactly the transmitted characters, in transmission order; none is lost, repeated or moved -/
+theorem rollup_stream_conserves (ws : List (RollWord × Option String)) : ∀ (r : Reader),
+    heldText (ws.foldl (fun r p => word r p.1.code p.2) r) = heldText r ++ vis (ws.flatMap (·.1.text)) := by
+  induction ws with
+  | nil => intro r; simp [vis]
+  | cons p ps ih =>
+    intro r
+    simp only [List.foldl_cons, List.flatMap_cons]
+    rw [ih]
+    obtain ⟨rw_, nxt⟩ := p
+    cases rw_ with
+    | chars w a b h =>
+      simp only [RollWord.code, RollWord.text]
+      rw [word_basic_held r w nxt a b h]
+      simp only [vis_append, List.append_assoc]
+    | cr =>
+      simp only [RollWord.code, RollWord.text]
+      by_cases hl : r.lastCmd = "94ad"
+      · rw [word_cr_repeated_held r nxt hl]; simp
+      · rw [word_cr_held r nxt hl]; simp
+
 end PcVerif.Props.C16
